@@ -30,6 +30,14 @@ def is_hash_ty(t):
 LOOP_ADAPTORS = {"iter", "into_iter", "iter_mut", "chain", "cloned", "copied", "enumerate", "rev", "by_ref", "keys", "values", "into_keys", "into_values", "drain"}
 
 
+def reviewed_sensitivity(cls):
+    """What a REVIEWED consumer class covers: an argument made for a materialised sequence (collected, or appended element by
+    element) is an argument about the whole order, so it covers every other consumer of the same source."""
+    if cls in ("for_each:extend", "collect:sequence"):
+        return 2
+    return sensitivity(cls)
+
+
 def sensitivity(cls):
     """How much of the iteration order a consumer class lets through: 0 = none (a set / a reduction that ignores order),
     1 = the order of independent effects (calls, appends), 2 = everything (a sequence, a pick, state carried between iterations)."""
@@ -309,7 +317,7 @@ def check(fx, rep, tier):
         # the reviewed argument covers any consumer that lets through no more of the order than the reviewed one did (the same
         # source rewritten from a collected queue to a loop over the iterator is the same consumer)
         rep.oblige(
-            row[1] == cls or sensitivity(cls) <= sensitivity(row[1]),
+            row[1] == cls or sensitivity(cls) <= reviewed_sensitivity(row[1]),
             "R02.1",
             f"order-source:{key}",
             w,
